@@ -47,6 +47,32 @@ def handle : List String → Verdict
             nontrivial := kind != "nil-range" && kind != "noop",
             sig := kind }
     | _, _ => .badOp
+  | ["hist", docH, csS, implS] =>
+    match hexField docH with
+    | some doc0 =>
+      let cs? : Option (List Change) :=
+        if csS == "-" then some [] else
+        (csS.splitOn ";").mapM fun part =>
+          match part.splitOn "|" with
+          | [rs, th] =>
+            match hexField th, (if rs == "-" then some none else
+                    match natList rs with
+                    | some [a, b, c, d] => some (some (⟨⟨a, b⟩, ⟨c, d⟩⟩ : Rng))
+                    | _ => none) with
+            | some t, some r => some (r, t)
+            | _, _ => none
+          | _ => none
+      match cs? with
+      | none => .badOp
+      | some cs =>
+        if !allOrdered doc0 cs then { skipped := true, tags := ["hist-start-after-end"] } else
+        let model := text (cs.foldl (fun d c => Doc.apply d c.1 c.2) (ofText doc0))
+        let spec := cs.foldl (fun t c => Editor.apply t c.1 c.2) doc0
+        let impl? := if implS == "PANIC" then none else hexField implS
+        { mismatch := if impl? == some model then none else some s!"history: impl={implS} model={Bytes.toHex model}",
+          predfail := if impl? == some spec then none else some s!"history: impl={implS} want={Bytes.toHex spec}",
+          nontrivial := cs.length ≥ 2, tags := ["hist"], sig := "hist" }
+    | none => .badOp
   | _ => .badOp
 
 end TemplVerif.Drive.C17
